@@ -8,7 +8,9 @@ Statements
   ["for", {"lb": ["c", v]|["a"], "step": ["c", v]|["a"], "ub": ["a"]|["c", trips]}, body, [init vrefs], [yield vrefs]]
   ["if", ["p", k] | ["cmp", pred, vref, vref], then, else, [then-value vref, else-value vref]]   (5th element optional: data result)
   ["unit", acc, value refs, launch seed, [order seed, keep] | ["idx", [field indices]]]   optional 5th element: partial setup, other field order (C04, C07)
-  ["call", annotated, k]    k = 0, 1: func.call @ext<k> (annotated: effects<none>); 2: "test.op" marked effects<full>; 3: plain "test.op"
+  ["call", annotated, k]    k = 0, 1: func.call @ext<k> (annotated: effects<none>); 2: "test.op" marked effects<full>; 3: plain "test.op";
+                            k >= 4: func.call @loc<k % 2>(value, condition), a function defined in the module that sets up and launches an
+                            accelerator (loc0: inside a conditional, loc1: at its top level); never annotated
   ["pure", opname, vref, vref]
 A vref is an int taken modulo the number of values visible at that point (arguments, constants, induction
 variables, loop-carried block arguments, pure results, loop results), so every recipe builds valid IR.
@@ -208,7 +210,7 @@ def _stmts(accs, depth, max_stmts, calls=True, pure=True, carried=True, unit_wei
                     elif mk == "carrier":
                         # an opaque call wrapped in 1..2 region ops that hold nothing else: a loop, the then- or the else-branch of an if
                         # (sometimes beside a call annotated as effect free, before or behind it)
-                        inner = [["call", False, draw(st.sampled_from([0, 1, 0, 1, 2]))]]
+                        inner = [["call", False, draw(st.sampled_from([0, 1, 0, 1, 2, 4, 5]))]]
                         beside = draw(st.sampled_from([None, None, "before", "behind"]))
                         if beside == "before":
                             inner.insert(0, ["call", True, draw(st.integers(0, 1))])
@@ -307,7 +309,7 @@ def _stmts(accs, depth, max_stmts, calls=True, pure=True, carried=True, unit_wei
                 else:
                     out.append(["if", cond, th, el])
             elif k == "call":
-                out.append(["call", draw(st.booleans()), draw(st.sampled_from([0, 1, 0, 1, 2, 3]))])
+                out.append(["call", draw(st.booleans()), draw(st.sampled_from([0, 1, 0, 1, 2, 3, 4, 5, 6, 7]))])
             else:
                 out.append(["pure", draw(st.sampled_from(PURE_OPS)), draw(_vref()), draw(_vref())])
         return out
@@ -403,6 +405,8 @@ def build(recipe, ty=None, extra_module_ops="", func_name="main") -> Built:
     def vref(r, vals):
         return vals[r % len(vals)]
 
+    local_used: set[int] = set()
+
     def emit_block(stmts, vals, ind, depth, in_loop):
         out = []
         pad = "  " * ind
@@ -464,10 +468,17 @@ def build(recipe, ty=None, extra_module_ops="", func_name="main") -> Built:
                 vals.append(r)
             elif k == "call":
                 _, annotated, kk = s
-                if kk % 4 == 2:
+                if kk < 4 and kk % 4 == 2:
                     # not a call: an opaque op marked as reconfiguring the accelerators
                     out.append(f'{pad}"test.op"() {{"accfg.effects" = #accfg.effects<full>}} : () -> ()')
                     b.features.add("op_marked_full")
+                elif kk >= 4:
+                    # call of a function defined in the same module that configures and launches an accelerator (kk even: inside a
+                    # conditional; odd: at the top level of the callee); never annotated
+                    j = kk % 2
+                    local_used.add(j)
+                    out.append(f'{pad}"func.call"({vref(kk // 2, vals)}, %p{(kk // 4) % recipe["nconds"]}) <{{callee = @loc{j}}}> : ({ty}, i1) -> ()')
+                    b.features.add("call_local_function")
                 elif kk % 4 == 3:
                     out.append(f'{pad}"test.op"() : () -> ()')
                     b.features.add("op_unmarked")
@@ -578,6 +589,20 @@ def build(recipe, ty=None, extra_module_ops="", func_name="main") -> Built:
         lines.append(extra_module_ops)
     lines.append('  "func.func"() <{sym_name = "ext0", function_type = () -> (), sym_visibility = "private"}> ({}) : () -> ()')
     lines.append('  "func.func"() <{sym_name = "ext1", function_type = () -> (), sym_visibility = "private"}> ({}) : () -> ()')
+    for j in sorted(local_used):
+        unit = emit_block([["unit", 0 if j == 0 else len(accs) - 1, [0], None]], ["%lv"], 3 if j == 0 else 2, 1, False)
+        lines.append(f'  "func.func"() <{{sym_name = "loc{j}", function_type = ({ty}, i1) -> (), sym_visibility = "private"}}> ({{')
+        lines.append(f'  ^bb0(%lv: {ty}, %lp: i1):')
+        if j == 0:
+            lines.append('    "scf.if"(%lp) ({')
+            lines.extend(unit)
+            lines.append('      "scf.yield"() : () -> ()')
+            lines.append('    }, {')
+            lines.append('    }) : (i1) -> ()')
+        else:
+            lines.extend(unit)
+        lines.append('    "func.return"() : () -> ()')
+        lines.append("  }) : () -> ()")
     lines.append(f'  "func.func"() <{{sym_name = "{func_name}", function_type = ({sig}) -> ()}}> ({{')
     lines.append(f'  ^bb0({", ".join(f"{a}: {t}" for a, t in all_args)}):')
     lines.extend("  " + l for l in const_lines)
